@@ -802,7 +802,7 @@ def gen_ret(rng, recv_mut, consuming, allow_child=True):
         if k < 0.80:
             return RRes(rng.choice(["u8", "u64", "Pod1"]), rng.choice(["u8", "i32", "bool"]))
         if k < 0.90:
-            return RIntRes(rng.choice(["u64", "u8", "Pod1", "()"]), rng.choice(["io", "unit", "UErr"]))
+            return RIntRes(rng.choice(["u64", "u8", "Pod1", "()", "()", "()"]), rng.choice(["io", "unit", "UErr"]))
         return RChild("owned", rng.random() < 0.4) if allow_child else RVal("u64")
     if k < 0.10:
         return RUnit()
@@ -819,7 +819,7 @@ def gen_ret(rng, recv_mut, consuming, allow_child=True):
     if k < 0.74:
         return RRes(rng.choice(["u8", "u64", "Pod1", "i32"]), rng.choice(["u8", "i32", "u64", "bool"]))
     if k < 0.84:
-        return RIntRes(rng.choice(["u64", "u8", "Pod1", "()", "i16"]), rng.choice(["io", "unit", "UErr"]))
+        return RIntRes(rng.choice(["u64", "u8", "Pod1", "()", "()", "()", "i16"]), rng.choice(["io", "unit", "UErr"]))
     if not allow_child:
         return RVal(rng.choice(_vals()))
     if k < 0.90:
@@ -1017,9 +1017,15 @@ def gen_trait(rng, name, prefix, max_methods=5, allow_child=True, tindex=0):
             m.where_sized = rng.random() < 0.5
             # a provided method that is not exported at all (no vtable slot): only meaningful
             # when the implementor does not override it (both paths then run the trait's body)
-            if not m.overridden and rng.random() < 0.5:
-                m.skip = True
-                m.attrs.append("#[skip_func]")
+            if not m.overridden:
+                k = rng.random()
+                if k < 0.35:
+                    m.skip = True
+                    m.attrs.append("#[skip_func]")
+                elif k < 0.7:
+                    # a slot for C callers only: the opaque object's own trait impl keeps the default body
+                    m.vtbl_only = True
+                    m.attrs.append("#[vtbl_only]")
         # int_result attribute logic
         if ret.int_result is True and not int_result:
             m.attrs.append("#[int_result]")
